@@ -235,7 +235,7 @@ func c23(c *core.Ctx) {
 		c.Ob("C23.runtime", "library·no write through a possibly shared default", c.P.Pos(all[0].Pos()), n == 0, "writes through tainted fields outside configuration: "+itoa(n))
 	}
 	// 3. freshness of the defaults placed into a new config
-	for _, name := range []string{"opcua.DefaultDialer", "opcua.DefaultClientConfig", "opcua.DefaultSessionConfig", "opcua.newConfig"} {
+	for _, name := range []string{"opcua.DefaultDialer", "opcua.DefaultClientConfig", "opcua.DefaultSessionConfig", "opcua.newConfig", "opcua.ApplyConfig"} {
 		var f *ssa.Function
 		for _, g := range all {
 			if fname(g) == name {
@@ -243,6 +243,9 @@ func c23(c *core.Ctx) {
 			}
 		}
 		if f == nil {
+			if name == "opcua.newConfig" {
+				continue // inlined into ApplyConfig, which is in the configuration scope and checked by C23.shared
+			}
 			c.Fatal("unresolved anchor: %s", name)
 			continue
 		}
